@@ -101,6 +101,13 @@ class Binding(object):
                 return ['None'] if r is None else ['unexpected_return']
             if n == 'extend':
                 items = [(key_of(k), self.val(v)) for k, v in o['items']]
+                form = o.get('form', 'list')
+                if form == 'dict':
+                    items = dict(items)
+                elif form == 'sdict':
+                    items = self.SortableDict(items)
+                elif form == 'meta':
+                    items = self.MetadataObject(items)
                 r = m.extend(items, replace=o['replace'])
                 return ['None'] if r is None else ['unexpected_return']
             raise MachineryError('unknown op %r' % n)
@@ -154,17 +161,26 @@ def replay_edges(rep, b, edges, classes):
         for cname, cls in classes:
             if o['name'] in ('append', 'append_default', 'extend') and cname == 'SortableDict':
                 continue
-            m = b.make(cls, pre_o, pre_v)
-            got_res = b.apply(m, o)
-            got_items = b.observe(m)
-            n += 1
-            rep.case((cname,) + key)
-            if (got_res, got_items) not in [(a[0], a[1]) for a in allowed]:
-                f = features(o, pre_o, got_res, got_items, allowed)
-                f['class'] = cname
-                rep.violation(f, {'class': cname, 'pre_items': [[k, pre_v[k]] for k in pre_o], 'op': o,
-                                  'got': {'result': got_res, 'items': got_items},
-                                  'allowed': [{'result': a[0], 'items': a[1]} for a in allowed]})
+            forms = ['list']
+            if o['name'] == 'extend' and len(set(k for k, _ in o['items'])) == len(o['items']):
+                forms = ['list', 'dict', 'sdict', 'meta']
+            for form in forms:
+                o2 = dict(o)
+                if o['name'] == 'extend':
+                    o2['form'] = form
+                m = b.make(cls, pre_o, pre_v)
+                got_res = b.apply(m, o2)
+                got_items = b.observe(m)
+                n += 1
+                rep.case((cname, form) + key)
+                if (got_res, got_items) not in [(a[0], a[1]) for a in allowed]:
+                    f = features(o2, pre_o, got_res, got_items, allowed)
+                    f['class'] = cname
+                    if o['name'] == 'extend':
+                        f['form'] = form
+                    rep.violation(f, {'class': cname, 'pre_items': [[k, pre_v[k]] for k in pre_o], 'op': o2,
+                                      'got': {'result': got_res, 'items': got_items},
+                                      'allowed': [{'result': a[0], 'items': a[1]} for a in allowed]})
     return n, len(groups)
 
 
@@ -211,6 +227,8 @@ def random_history(rng, b, cls, nkeys, length):
             o.update(k=K(), replace=rng.random() < 0.7)
         elif n == 'extend':
             o.update(items=[[K(), V()] for _ in range(rng.randint(0, 3))], replace=rng.random() < 0.7)
+            if len(set(k for k, _ in o['items'])) == len(o['items']):
+                o['form'] = rng.choice(['list', 'dict', 'sdict', 'meta'])
         if n == 'clear' and rng.random() < 0.9:
             continue
         res = b.apply(m, o)
@@ -229,17 +247,18 @@ def judge_traces(rep, work, traces, label):
     if r.invariant_violated:
         rep.violation({'engine': 'sdict-trace', 'invariant': r.invariant_violated},
                       {'tlc_tail': r.out[-2000:]})
-    verdict = {}
+    verdict, done = {}, set()
     for ln in r.out.split('\n'):
         ln = ln.strip()
-        if ln.startswith('<<"ACCEPT"'):
-            verdict[int(ln.split(',')[1].strip(' >'))] = ('ACCEPT',)
+        if ln.startswith('<<"ACCEPT"') or ln.startswith('<<"DONE"'):
+            done.add(int(ln.split(',')[1].strip(' >')))
         elif ln.startswith('<<"REJECT"'):
             parts = [p.strip(' <>"') for p in ln.split(',')]
-            verdict[int(parts[1])] = ('REJECT', int(parts[2]), parts[3])
+            verdict.setdefault(int(parts[1]), []).append((int(parts[2]), parts[3]))
     for i in range(1, len(traces) + 1):
-        if i not in verdict:
+        if i not in done:
             raise MachineryError('no verdict for trace %d (%s)\n%s' % (i, label, r.out[-1500:]))
+        verdict.setdefault(i, []).sort()
     return verdict
 
 
@@ -253,15 +272,16 @@ def trace_features(tr, l, clause):
     return f
 
 
-def selftest_binding(rep, work, traces):
-    """Demonstrate the binding: corrupt one logged field of an accepted trace -> REJECT."""
+def selftest_binding(rep, work, traces, verdict):
+    """Demonstrate the binding: corrupt one logged field of a trace -> exactly that event is rejected."""
     good = [e for e in traces[0]]
     bad = json.loads(json.dumps(good))
     idx = next(i for i, e in enumerate(bad) if len(e['st']) >= 2)
     bad[idx]['st'][0], bad[idx]['st'][1] = bad[idx]['st'][1], bad[idx]['st'][0]
     v = judge_traces(rep, work, [good, bad], 'selftest')
-    ok = v[1][0] == 'ACCEPT' and v[2][0] == 'REJECT' and v[2][1] == idx + 1
-    rep.extra['binding_selftest'] = {'corrupted_event': idx + 1, 'verdicts': [list(v[1]), list(v[2])], 'ok': ok}
+    new_rej = [x for x in v[2] if x not in v[1]]
+    ok = v[1] == verdict[1] and any(x[0] == idx + 1 for x in new_rej)
+    rep.extra['binding_selftest'] = {'corrupted_event': idx + 1, 'new_rejections': new_rej[:3], 'ok': ok}
     if not ok:
         raise MachineryError('binding self-test failed: %r' % (v,))
 
@@ -305,27 +325,11 @@ def run(tier):
         rep.sample({'history_prefix': traces[0][:3]})
         for i, tr in enumerate(traces, 1):
             rep.case(('hist', i))
-            # a rejected history is re-judged from the logged state after the offending event, so
-            # that the rest of the history is examined too (not only the first offending event)
-            v = verdict[i]
-            guard = 0
-            while v[0] == 'REJECT' and guard < 60:
-                guard += 1
-                l = v[1]
-                rep.violation(trace_features(tr, l, v[2]),
-                              {'history_prefix': tr[max(0, l - 6):l], 'clause': v[2], 'event': l})
-                rest = tr[l:]
-                pre = tr[l - 1]['st']
-                if not rest or any(x[1] == BAD for x in pre) or len(set(x[0] for x in pre)) != len(pre):
-                    break
-                seed_evs = [{'name': 'clear', 'r': ['None'], 'st': []}] + \
-                    [{'name': 'setitem', 'k': k, 'v': v_, 'r': ['None'], 'st': pre[:j + 1]}
-                     for j, (k, v_) in enumerate(pre)]
-                tr = seed_evs + rest
-                v = judge_traces(rep, work, [tr], 'resume')[1]
-                if v[0] == 'REJECT' and v[1] <= len(seed_evs):
-                    raise MachineryError('resume prefix rejected: %r' % (v,))
-        selftest_binding(rep, work, traces)
+            for (l, clause) in verdict[i]:
+                rep.violation(trace_features(tr, l, clause),
+                              {'history_prefix': tr[max(0, l - 6):l], 'clause': clause, 'event': l,
+                               'class': 'MetadataObject' if i % 2 == 0 else 'SortableDict'})
+        selftest_binding(rep, work, traces, verdict)
     rep.rule = ('edges: every <<pre-state, operation+arguments>> pair of the bounded SDict model, replayed on '
                 'SortableDict and MetadataObject, distinct by (class, pre-state, op); histories: seeded random '
                 'programs judged event by event by Trace_SDict')
